@@ -28,6 +28,13 @@ package http
 //@ requires h != nil && h.sq != nil && !closed(h.sq)
 //@ ensures result == (sends(h.sq) == 1)
 //@ ensures sends(h.sq) <= 1
+// the plugin reports a refused message through its result only: the caller answers it (a Done call here would
+// complete the hand-off twice)
+//@ funcvalue \.Done$ records done
+//@ ensures [body C12 C18 C08] calls("done") == 0
+// called on the kernel loop: never waits (the only send is the non-blocking one)
+//@ site send assert false
+//@ site select assert !blocking
 
 // The worker loop: every message taken from the queue is processed once and its Done callback is invoked once
 // (C12, C08: the sender's completion for a hand-off is produced exactly once; the loop ends only on a closed queue).
